@@ -20,7 +20,7 @@ import contextlib
 
 from .model import AnalysisError, ClassInfo, FuncInfo
 from .expr import txt, unawait, dotted
-from .paths import ELEM, EXC, ENTER
+from .paths import ELEM, EXC, ENTER, TYPED
 
 BUILTIN_EXC_PARENTS = {
     'Exception': 'BaseException', 'KeyboardInterrupt': 'BaseException',
@@ -109,6 +109,7 @@ class Resolver:
         self._raises_cache = {}
         self._raises_stack = set()
         self._quiet = 0
+        self._cur_env = None
         self._pair_server_socket()
         self.driver_ws = self._driver_ws_classes()
         self._infer_param_types()
@@ -299,6 +300,10 @@ class Resolver:
         if isinstance(e, ast.Name):
             if e.id == 'self' and self.owner_class(fi, ctx) is not None:
                 return ('inst', self.owner_class(fi, ctx))
+            if self._cur_env is not None and depth < 8:
+                d = self._cur_env.get('$def:' + e.id)
+                if d is not None:
+                    return self.type_of(d, fi, ctx, depth + 2)
             if self._fi and depth < 8:
                 f = fi
                 while f is not None:
@@ -362,6 +367,12 @@ class Resolver:
             f = unawait(e.func)
             if isinstance(f, ast.Name) and f.id == ELEM and e.args:
                 return self._elem_type(self.type_of(e.args[0], fi, ctx, depth + 1))
+            if isinstance(f, ast.Name) and f.id == TYPED and len(e.args) == 2 and \
+                    isinstance(e.args[0], ast.Constant):
+                try:
+                    return ('inst', self.m.cls(e.args[0].value))
+                except AnalysisError:
+                    return None
             if isinstance(f, ast.Name) and f.id == 'super' and not e.args:
                 oc = self.owner_class(fi, ctx)
                 if oc is not None:
@@ -602,6 +613,14 @@ class Resolver:
 
     # ------------------------------------------------------------------
     def resolve(self, call, fi, ctx=None, env=None):
+        old_env = self._cur_env
+        self._cur_env = env
+        try:
+            return self._resolve(call, fi, ctx)
+        finally:
+            self._cur_env = old_env
+
+    def _resolve(self, call, fi, ctx=None):
         call = unawait(call)
         f = unawait(call.func)
         text = txt(f)
